@@ -786,6 +786,23 @@ fn gen_sort_array(u: &mut Src) -> Vec<J> {
             }
         });
     }
+    // a family of objects over ONE key set, each written in its own insertion order, with
+    // small values drawn independently per key: pairs that differ at two keys in opposite
+    // directions decide whether values are compared in sorted-key order (jq) or not
+    if u.ratio(1, 3) {
+        let pool = ["b", "a", "d", "c"];
+        let nk = u.range(2, 4);
+        for _ in 0..u.range(2, 5) {
+            let mut order: Vec<usize> = (0..nk).collect();
+            for i in (1..nk).rev() {
+                let j = u.below(i + 1);
+                order.swap(i, j);
+            }
+            let obj: Vec<(String, J)> = order.iter().map(|&i| (pool[i].to_string(), J::int(u.range_i64(0, 2)))).collect();
+            let pos = u.below(arr.len() + 1);
+            arr.insert(pos, J::Obj(obj));
+        }
+    }
     arr
 }
 
